@@ -287,6 +287,77 @@ func init() {
 			}
 			sb.WriteString("\ndef " + d.name + " : List String := " + LeanStrList(out) + "\n")
 		}
+		// round 10: the lookup object carries no state of earlier lookups (its fields), and the bodies of
+		// the word-arithmetic functions that Model/C20Words.lean mirrors statement by statement
+		tbFields := c20StructFields(tb, "TrieBucket")
+		if tbFields == nil {
+			return "", fmt.Errorf("struct TrieBucket not found")
+		}
+		sb.WriteString("\ndef trieBucketFields : List String := " + LeanStrList(tbFields) + "\n")
+		var stmts func(list []ast.Stmt, out *[]string)
+		stmts = func(list []ast.Stmt, out *[]string) {
+			for _, st := range list {
+				switch x := st.(type) {
+				case *ast.RangeStmt:
+					*out = append(*out, "range "+show(x.X)+" {")
+					stmts(x.Body.List, out)
+					*out = append(*out, "}")
+				case *ast.ForStmt:
+					h := ""
+					if x.Init != nil {
+						h += show(x.Init)
+					}
+					h += ";"
+					if x.Cond != nil {
+						h += " " + show(x.Cond)
+					}
+					h += ";"
+					if x.Post != nil {
+						h += " " + show(x.Post)
+					}
+					*out = append(*out, "for "+h+" {")
+					stmts(x.Body.List, out)
+					*out = append(*out, "}")
+				case *ast.IfStmt:
+					*out = append(*out, "if "+show(x.Cond)+" {")
+					stmts(x.Body.List, out)
+					*out = append(*out, "}")
+					if x.Else != nil {
+						*out = append(*out, "else {")
+						if bl, ok := x.Else.(*ast.BlockStmt); ok {
+							stmts(bl.List, out)
+						} else {
+							stmts([]ast.Stmt{x.Else}, out)
+						}
+						*out = append(*out, "}")
+					}
+				case *ast.BlockStmt:
+					stmts(x.List, out)
+				default:
+					*out = append(*out, strings.Join(strings.Fields(show(st)), " "))
+				}
+			}
+		}
+		for _, d := range []struct {
+			f        *ast.File
+			recv, fn string
+			name     string
+		}{
+			{bvFile, "bitVector", "DistanceToNextSetBit", "distNextStmts"},
+			{bvFile, "bitVector", "numWords", "numWordsStmts"},
+			{byName["bits.go"], "", "popcountBlock", "popcountBlockStmts"},
+			{byName["bits.go"], "", "selectInByte", "selectInByteStmts"},
+			{byName["bits.go"], "", "findFirstSet", "findFirstSetStmts"},
+			{byName["rank.go"], "rankVectorSparse", "Rank", "rankStmts"},
+		} {
+			fd := FindFunc(d.f, d.recv, d.fn)
+			if fd == nil || fd.Body == nil {
+				return "", fmt.Errorf("%s.%s not found", d.recv, d.fn)
+			}
+			var out []string
+			stmts(fd.Body.List, &out)
+			sb.WriteString("\ndef " + d.name + " : List String := " + LeanStrList(out) + "\n")
+		}
 		sb.WriteString("\ndef bucketWriteCalls : List String := " + LeanStrList(CallSeq(FindFunc(tb, "TrieBucket", "Write"))) + "\n")
 		tbb, err := parse("index/model/trie_bucket_builder.go")
 		if err != nil {
